@@ -67,7 +67,10 @@ if h:
                     )
 c.finish(
     assumptions=[
-        "bytes are < 256 (wf); predictor input consists of whole rows",
+        "bytes are < 256 (wf); predictor and CCITTFax input consists of WHOLE rows: a partial last row is outside the "
+        "property (the predictor writer zero-pads it, the CCITT writer drops it, Close succeeds in both cases - pinned by "
+        "the library's own tests TestWriterShortFinalRow / filterRoundTrip); CCITT rows have zero padding bits",
+        "CCITTFax: at most ccitt_max_rows(Columns, Rows) rows - the encoder refuses more (F67), which the harness requires",
         "chain_rt: at most 8 filters (maxFilterChainLength, GetFilters rejects longer chains); each stage satisfies "
         "dec(MakeFilter(Info s))(enc s x) = x - proved for ASCIIHex, ASCII85, RunLength, LZW, PNG and TIFF predictors "
         "and CCITTFax with K = 0 (g3_1d_rt: rows of ceil(Columns/8) bytes with zero padding bits, at most Rows rows); "
